@@ -73,6 +73,13 @@ def compareTipsLines (refTips : List String) (l : List (String × Bool)) : List 
 def compareTipsLinesPinned (refTips : List String) (l : List (String × Bool)) : List String :=
   walkUnsorted (fun k _ => if refTips.contains k then none else some ("(Tree 0) > " ++ k ++ "\n")) l
 
+/-- cmd/comparetips.go with a tip file, the whole standard output: `<` lines for the tips of the reference
+    tree absent from the file (in `Tips()` order, the map only looked up), the sorted `>` lines, the count -/
+def compareTipsOutput (refTips : List String) (l : List (String × Bool)) : List String :=
+  refTips.filterMap (fun t => if (get l t).isSome then none else some ("(Tree 0) < " ++ t ++ "\n")) ++
+  compareTipsLines refTips l ++
+  ["(Tree 0) = " ++ toString (refTips.filter (fun t => (get l t).isSome)).length ++ "\n"]
+
 /-- cmd/rename.go `writeNameMap`: `old<TAB>new` lines sorted by old name -/
 def nameMapLines (l : List (String × String)) : List String :=
   walkSorted (fun k v => some (k ++ "\t" ++ v.getD "" ++ "\n")) l
@@ -209,6 +216,27 @@ def renameLoop (index : List (String × Nat)) (names : Nat → String) (l : List
     | some id => fun i => if i == id then e.2 else nm i
     | none => nm) names
 
+/-- `NewNodeIndex`: nodes in `t.Nodes()` order (position = node id here); a node with a name is entered
+    under it, `none` = "Tree contains several node with the same name" -/
+def buildNodeIndex : Nat → List String → List (String × Nat) → Option (List (String × Nat))
+  | _, [], acc => some acc
+  | i, n :: r, acc =>
+    if n == "" then buildNodeIndex (i + 1) r acc
+    else if (get acc n).isSome then none
+    else buildNodeIndex (i + 1) r (put acc n i)
+
+/-- the whole of `Tree.Rename` on the node names (in `t.Nodes()` order) and the tip flags:
+    index, loop, then `UpdateTipIndex` (an error when two tips end up with the same name) -/
+def renameFull (names : List String) (isTip : List Bool) (l : List (String × String)) : Option (List String) :=
+  match buildNodeIndex 0 names [] with
+  | none => none
+  | some index =>
+    let after := (List.range names.length).map (renameLoop index (fun i => (names.drop i).headD "") l)
+    let tips := sortS ((after.zip isTip).filterMap (fun e => if e.2 then some e.1 else none))
+    match fillIndex ([] : List (String × Nat)) (tips.map (fun n => (n, 0))) with
+    | none => none
+    | some _ => some after
+
 /-- a variant of `renameLoop` in which the loop also records each renamed node under its NEW name in the
     node index (`nodeindex.AddNode(node)`, the seeded change C18-1): a later entry whose old name is that new
     name then finds the node again -/
@@ -216,6 +244,25 @@ def renameLoopReindex (index : List (String × Nat)) (names : Nat → String) (l
   (l.foldl (fun (st : List (String × Nat) × (Nat → String)) e => match get st.1 e.1 with
     | some id => (put st.1 e.2 id, fun i => if i == id then e.2 else st.2 i)
     | none => st) (index, names)).2
+
+/-! ## io/nexus `WriteNexus`: the taxon label table (nexus.go:83-99) and the blocks written from it -/
+
+/-- `if _, ok := taxLabelsMap[tip]; !ok { taxLabelsMap[tip] = Sprintf("%d", nbTax); slice = append(slice, tip); nbTax++ }` -/
+def nexusLabelStep (st : List (String × String) × List String × Nat) (tip : String) :
+    List (String × String) × List String × Nat :=
+  if (get st.1 tip).isSome then st else (put st.1 tip (toString st.2.2), st.2.1 ++ [tip], st.2.2 + 1)
+
+/-- the loop over the trees (each given by its tip names in `AllTipNames` order); `sort.Strings(slice)` after each tree -/
+def nexusLabels (trees : List (List String)) : List (String × String) × List String × Nat :=
+  trees.foldl (fun st tips => let st' := tips.foldl nexusLabelStep st; (st'.1, sortS st'.2.1, st'.2.2)) ([], [], 0)
+
+/-- everything `WriteNexus` writes except the `TREE` lines: TAXA block, TRANSLATE block (map only looked up) -/
+def nexusFrameLines (translate : Bool) (trees : List (List String)) : List String :=
+  let st := nexusLabels trees
+  ["#NEXUS\n", "BEGIN TAXA;\n", " DIMENSIONS NTAX=" ++ toString st.1.length ++ ";\n",
+   " TAXLABELS" ++ String.join (st.2.1.map (" " ++ ·)) ++ ";\n", "END;\n", "BEGIN TREES;\n"] ++
+  (if translate then ["  TRANSLATE\n"] ++ st.2.1.map (fun tip => "   " ++ (get st.1 tip).getD "" ++ " " ++ tip ++ "\n") ++ ["  ;\n"] else []) ++
+  ["END;\n"]
 
 /-! ## mutations -/
 
@@ -311,6 +358,12 @@ def eemRecordsPinned (acc : List (EemKey × Mut)) (l : List (String × Mut)) : E
     number of emergences (this much was order-independent already before bf532dd) -/
 def eemCountsPinned (acc : List (EemKey × Mut)) (l : List (String × Mut)) : EemKey → Option Nat :=
   fun id => (get (eemLoopPinned acc l) id).map (·.numEEM)
+
+/-! ## cmd/root.go `PersistentPreRun`: the value handed to `rand.Seed` -/
+
+/-- `if seed == -1 { seed = time.Now().UTC().UnixNano() }; rand.Seed(seed)` -/
+def effectiveSeed (seedFlag : Int) (clockNanos : Int) : Int :=
+  if seedFlag == -1 then clockNanos else seedFlag
 
 /-! ## excluded packages (reviewed, DESIGN §3.7) -/
 
